@@ -26,38 +26,73 @@ theorem permLookup_sound (s : State) (hI : SInv s) (k : Key) (perms : List Str) 
     · injection h with h; subst h; rw [policy_live _ _ _ hp]; exact this
     · cases h
 
+theorem evictPerm_props (s : State) :
+    (∀ e ∈ (evictPerm s).permCache, e ∈ s.permCache) ∧ (evictPerm s).tokCache = s.tokCache ∧
+    (evictPerm s).tb = s.tb ∧ (evictPerm s).mode = s.mode ∧ (evictPerm s).now = s.now ∧ (evictPerm s).ttl = s.ttl := by
+  unfold evictPerm
+  split
+  · exact ⟨fun _ h => h, rfl, rfl, rfl, rfl, rfl⟩
+  · split
+    · exact ⟨fun e he => (List.mem_filter.1 he).1, rfl, rfl, rfl, rfl, rfl⟩
+    · exact ⟨fun _ h => h, rfl, rfl, rfl, rfl, rfl⟩
+
+theorem evictTok_props (s : State) :
+    (∀ e ∈ (evictTok s).tokCache, e ∈ s.tokCache) ∧ (evictTok s).permCache = s.permCache ∧
+    (evictTok s).tb = s.tb ∧ (evictTok s).mode = s.mode ∧ (evictTok s).now = s.now ∧ (evictTok s).ttl = s.ttl := by
+  unfold evictTok
+  split
+  · exact ⟨fun _ h => h, rfl, rfl, rfl, rfl, rfl⟩
+  · split
+    · exact ⟨fun e he => (List.mem_filter.1 he).1, rfl, rfl, rfl, rfl, rfl⟩
+    · exact ⟨fun _ h => h, rfl, rfl, rfl, rfl, rfl⟩
+
+theorem loadTok_spec (s : State) (hI : SInv s) (tid : Nat) (perms : List Str)
+    (hp : tokenInfo s.tb tid = some perms) :
+    (loadTok s tid).2 = loadData s.tb tid ∧ SInv (loadTok s tid).1 ∧ (loadTok s tid).1.tb = s.tb ∧
+    (loadTok s tid).1.mode = s.mode := by
+  have hlt := tokenInfo_some_lt s.tb hI.1 tid perms hp
+  obtain ⟨hsub, hpc, htb, hmode, _, _⟩ := evictTok_props s
+  refine ⟨rfl, ?_, htb, hmode⟩
+  unfold loadTok SInv
+  simp only
+  rw [htb, hpc]
+  refine ⟨hI.1, hI.2.1, fun e he => ?_⟩
+  cases he with
+  | head => exact ⟨hlt, fun _ _ => rfl⟩
+  | tail _ he => exact hI.2.2 e (hsub e (List.mem_filter.1 he).1)
+
 theorem getData_spec (s : State) (hI : SInv s) (tid : Nat) (perms : List Str)
     (hp : tokenInfo s.tb tid = some perms) :
     (getData s tid).2 = loadData s.tb tid ∧ SInv (getData s tid).1 ∧ (getData s tid).1.tb = s.tb ∧
-    (getData s tid).1.permCache = s.permCache ∧ (getData s tid).1.now = s.now ∧
-    (getData s tid).1.ttl = s.ttl ∧ (getData s tid).1.mode = s.mode := by
-  have hlt := tokenInfo_some_lt s.tb hI.1 tid perms hp
-  have hload : SInv { s with tokCache := (tid, loadData s.tb tid, s.now) :: s.tokCache } := by
-    refine ⟨hI.1, hI.2.1, fun e he => ?_⟩
-    cases he with
-    | head => exact ⟨hlt, fun _ _ => rfl⟩
-    | tail _ he => exact hI.2.2 e he
+    (getData s tid).1.mode = s.mode := by
   unfold getData
   cases hl : s.tokCache.lookup tid with
-  | none => exact ⟨rfl, hload, rfl, rfl, rfl, rfl, rfl⟩
+  | none => exact loadTok_spec s hI tid perms hp
   | some v =>
     obtain ⟨d, at_⟩ := v
     simp only
     split
     · have hmem := lookup_mem _ _ _ hl
-      exact ⟨(hI.2.2 _ hmem).2 perms hp, hI, rfl, rfl, rfl, rfl, rfl⟩
-    · exact ⟨rfl, hload, rfl, rfl, rfl, rfl, rfl⟩
+      exact ⟨(hI.2.2 _ hmem).2 perms hp, hI, rfl, rfl⟩
+    · exact loadTok_spec s hI tid perms hp
 
 theorem storePerm_inv (s : State) (hI : SInv s) (k : Key) (perms : List Str)
     (hp : tokenInfo s.tb k.tid = some perms) :
-    SInv (storePerm s k (evalData perms (loadData s.tb k.tid) k)) := by
+    SInv (storePerm s k (evalData perms (loadData s.tb k.tid) k)) ∧
+    (storePerm s k (evalData perms (loadData s.tb k.tid) k)).tb = s.tb ∧
+    (storePerm s k (evalData perms (loadData s.tb k.tid) k)).mode = s.mode := by
+  obtain ⟨hsub, htc, htb, hmode, _, _⟩ := evictPerm_props s
+  refine ⟨?_, htb, hmode⟩
+  unfold storePerm SInv
+  simp only
+  rw [htb, htc]
   refine ⟨hI.1, fun e he => ?_, hI.2.2⟩
   cases he with
   | head =>
     refine ⟨tokenInfo_some_lt s.tb hI.1 _ perms hp, fun perms' hp' => ?_⟩
     change tokenInfo s.tb k.tid = some perms' at hp'
     rw [hp] at hp'; injection hp' with hp'; subst hp'; rfl
-  | tail _ he => exact hI.2.1 e he
+  | tail _ he => exact hI.2.1 e (hsub e (List.mem_filter.1 he).1)
 
 /-- single check, token authenticates -/
 theorem checkLive_spec (s : State) (hI : SInv s) (k : Key) (perms : List Str)
@@ -68,12 +103,12 @@ theorem checkLive_spec (s : State) (hI : SInv s) (k : Key) (perms : List Str)
   cases hl : permLookup s k with
   | some d => exact ⟨permLookup_sound s hI k perms d hp hl, hI, rfl, rfl⟩
   | none =>
-    obtain ⟨hd, hI', htb, _, _, _, hmode⟩ := getData_spec s hI k.tid perms hp
+    obtain ⟨hd, hI', htb, hmode⟩ := getData_spec s hI k.tid perms hp
     simp only
     rw [hd]
-    refine ⟨(policy_live _ _ _ hp).symm, ?_, htb, hmode⟩
     have := storePerm_inv (getData s k.tid).1 hI' k perms (by rw [htb]; exact hp)
-    rw [htb] at this; exact this
+    rw [htb] at this
+    exact ⟨(policy_live _ _ _ hp).symm, this.1, this.2.1, by rw [this.2.2, hmode]⟩
 
 /-- **single check** (request path `VerifyToken` → `CheckPermission`), cache hit or miss -/
 theorem checkSingle_spec (s : State) (hI : SInv s) (k : Key) :
@@ -88,7 +123,7 @@ theorem batchLive_spec (s : State) (hI : SInv s) (k : Key) (perms : List Str)
     (hp : tokenInfo s.tb k.tid = some perms) :
     (batchLive s perms k).2.1 = policy s.tb k ∧ SInv (batchLive s perms k).1 ∧
     (batchLive s perms k).1.tb = s.tb ∧ (batchLive s perms k).1.mode = s.mode := by
-  obtain ⟨hd, hI', htb, _, _, _, hmode⟩ := getData_spec s hI k.tid perms hp
+  obtain ⟨hd, hI', htb, hmode⟩ := getData_spec s hI k.tid perms hp
   have hp' : tokenInfo (getData s k.tid).1.tb k.tid = some perms := by rw [htb]; exact hp
   unfold batchLive
   simp only
@@ -100,9 +135,9 @@ theorem batchLive_spec (s : State) (hI : SInv s) (k : Key) (perms : List Str)
   | none =>
     simp only
     rw [hd]
-    refine ⟨(policy_live _ _ _ hp).symm, ?_, htb, hmode⟩
     have := storePerm_inv (getData s k.tid).1 hI' k perms hp'
-    rw [htb] at this; exact this
+    rw [htb] at this
+    exact ⟨(policy_live _ _ _ hp).symm, this.1, this.2.1, by rw [this.2.2, hmode]⟩
 
 theorem batchOne_spec (s : State) (hI : SInv s) (k : Key) :
     (batchOne s k).2.1 = policy s.tb k ∧ SInv (batchOne s k).1 ∧
@@ -126,19 +161,17 @@ theorem checkBatch_spec (ks : List Key) : ∀ (s : State), SInv s →
     refine ⟨?_, r2, by rw [r3, h3], by rw [r4, h4]⟩
     rw [r1, h1, h3]
 
-theorem init_inv (mode : Mode) (ttl now : Int) : SInv (init mode ttl now) :=
+theorem init_inv (mode : Mode) (ttl now : Int) (cap : Nat) : SInv (init mode ttl now cap) :=
   ⟨⟨fun _ h => by simp [init] at h, fun _ h => by simp [init] at h⟩,
    fun _ h => by simp [init] at h, fun _ h => by simp [init] at h⟩
 
-theorem invalidate_mode (i : Inv) (t : Nat) (s : State) : (invalidate i t s).mode = s.mode := by
-  cases i <;> rfl
-theorem invalidate_tb (i : Inv) (t : Nat) (s : State) : (invalidate i t s).tb = s.tb := by
-  cases i <;> rfl
+/-- the eviction oracle is not part of the invariant -/
+theorem withOracle_inv (s : State) (orc : List Victim) (h : SInv s) : SInv (withOracle s orc) := h
 
 /-- a mutation followed by its generated invalidation preserves the invariant when that invalidation
 is sufficient for the mutation's class -/
-theorem stepMut_inv (s : State) (hI : SInv s) (op : Op) (m : Method) (hm : op.method? = some m)
-    (hsuf : sufficient s.mode m = true) :
+theorem stepMut_inv (s : State) (hI : SInv s) (op : Op) (m : Method) (hm : methodAt s.tb op = some m)
+    (hsuf : ∀ r tb', exec s.mode s.tb op = (r, some tb') → sufficient s.mode m = true) :
     SInv (stepMut s op m).1 ∧ (stepMut s op m).1.mode = s.mode := by
   unfold stepMut
   cases he : exec s.mode s.tb op with
@@ -147,48 +180,107 @@ theorem stepMut_inv (s : State) (hI : SInv s) (op : Op) (m : Method) (hm : op.me
     | none => exact ⟨hI, rfl⟩
     | some tb' =>
       obtain ⟨hT', heff⟩ := exec_effect s.mode s.tb tb' op m r hI.1 hm he
-      have hc := CInv_mutation (classOf m) (invOf s.mode m) op.tokArg s tb' hsuf heff hI.2
+      have hs := hsuf r tb' he
+      have hs' : needsNone (classOf m) = true ∨ (covers (classOf m) (invOf s.mode m) = true ∧ strong (invOf s.mode m) = true) := by
+        unfold sufficient at hs
+        simpa [Bool.or_eq_true, Bool.and_eq_true] using hs
+      have hc := CInv_mutation (classOf m) (invOf s.mode m) op.tokArg s tb' hs' heff hI.2
+      have hp := invalidate_props (invOf s.mode m) op.tokArg { s with tb := tb' }
       show SInv (invalidate (invOf s.mode m) op.tokArg { s with tb := tb' }) ∧
         (invalidate (invOf s.mode m) op.tokArg { s with tb := tb' }).mode = s.mode
-      have htb := invalidate_tb (invOf s.mode m) op.tokArg { s with tb := tb' }
       unfold SInv
-      rw [htb]
-      exact ⟨⟨hT', hc⟩, invalidate_mode _ _ _⟩
+      rw [hp.2.2.1]
+      exact ⟨⟨hT', hc⟩, hp.2.2.2⟩
+
+theorem cleanup_inv (s : State) (hI : SInv s) : SInv (cleanup s) :=
+  SInv_of_sub s (cleanup s) rfl (fun _ he => (List.mem_filter.1 he).1) (fun _ he => (List.mem_filter.1 he).1) hI
+
+theorem toCluster_inv (s : State) (hI : SInv s) :
+    SInv { s with mode := .cluster, tb := { s.tb with fsmTokFrom := s.tb.tokBound } } := by
+  have hti : ∀ tid, tokenInfo { s.tb with fsmTokFrom := s.tb.tokBound } tid = tokenInfo s.tb tid := fun _ => rfl
+  have hld : ∀ tid, loadData { s.tb with fsmTokFrom := s.tb.tokBound } tid = loadData s.tb tid := fun _ => rfl
+  refine ⟨⟨hI.1.tokLt, hI.1.memTeam⟩, fun e he => ?_, fun e he => ?_⟩
+  · have := hI.2.1 e he
+    exact ⟨this.1, fun perms hp => by rw [hld]; exact this.2 perms (by rw [← hti]; exact hp)⟩
+  · have := hI.2.2 e he
+    exact ⟨this.1, fun perms hp => by rw [hld]; exact this.2 perms (by rw [← hti]; exact hp)⟩
 
 /-- one step preserves the invariant, provided the op — if it is a mutation — is one whose generated
-invalidation is sufficient -/
+invalidation is sufficient; the mode follows `nextMode` -/
 theorem step_inv (s : State) (hI : SInv s) (op : Op) (hok : opOk s.mode op = true) :
-    SInv (step s op).1 ∧ (step s op).1.mode = s.mode := by
+    SInv (step s op).1 ∧ (step s op).1.mode = nextMode s.mode op := by
+  have mutCase : ∀ m, op.method? = some m → methodAt s.tb op = some m → opOk s.mode op = sufficient s.mode m →
+      SInv (stepMut s op m).1 ∧ (stepMut s op m).1.mode = s.mode := by
+    intro m _ hma hk
+    exact stepMut_inv s hI op m hma (fun _ _ _ => by rw [← hk]; exact hok)
   cases op with
   | advance dt => exact ⟨⟨hI.1, hI.2⟩, rfl⟩
-  | check k => have := checkSingle_spec s hI k; exact ⟨this.2.1, this.2.2.2⟩
-  | batch ks => have := checkBatch_spec ks s hI; exact ⟨this.2.1, this.2.2.2⟩
-  | createOrg a b => exact stepMut_inv s hI _ _ rfl hok
-  | updateOrg a b c => exact stepMut_inv s hI _ _ rfl hok
-  | deleteOrg a => exact stepMut_inv s hI _ _ rfl hok
-  | createTeam a b c => exact stepMut_inv s hI _ _ rfl hok
-  | updateTeam a b c => exact stepMut_inv s hI _ _ rfl hok
-  | deleteTeam a => exact stepMut_inv s hI _ _ rfl hok
-  | createRole a b c d => exact stepMut_inv s hI _ _ rfl hok
-  | updateRole a b c => exact stepMut_inv s hI _ _ rfl hok
-  | deleteRole a => exact stepMut_inv s hI _ _ rfl hok
-  | createMP a b c d => exact stepMut_inv s hI _ _ rfl hok
-  | deleteMP a => exact stepMut_inv s hI _ _ rfl hok
-  | addMem a b c => exact stepMut_inv s hI _ _ rfl hok
-  | removeMem a b => exact stepMut_inv s hI _ _ rfl hok
-  | createToken a b c => exact stepMut_inv s hI _ _ rfl hok
-  | updateToken a b => exact stepMut_inv s hI _ _ rfl hok
-  | revokeToken a => exact stepMut_inv s hI _ _ rfl hok
-  | deleteToken a => exact stepMut_inv s hI _ _ rfl hok
-  | rotateToken a => exact stepMut_inv s hI _ _ rfl hok
+  | cleanup => exact ⟨cleanup_inv s hI, rfl⟩
+  | toCluster =>
+    show SInv (match s.mode with
+        | .cluster => s
+        | .direct => { s with mode := .cluster, tb := { s.tb with fsmTokFrom := s.tb.tokBound } }) ∧
+      (match s.mode with
+        | .cluster => s
+        | .direct => { s with mode := .cluster, tb := { s.tb with fsmTokFrom := s.tb.tokBound } }).mode = Mode.cluster
+    cases hmode : s.mode with
+    | cluster => exact ⟨hI, hmode⟩
+    | direct => exact ⟨toCluster_inv s hI, rfl⟩
+  | check k orc =>
+    have := checkSingle_spec (withOracle s orc) (withOracle_inv s orc hI) k
+    exact ⟨this.2.1, this.2.2.2⟩
+  | batch ks orc =>
+    have := checkBatch_spec ks (withOracle s orc) (withOracle_inv s orc hI)
+    exact ⟨this.2.1, this.2.2.2⟩
+  | applyCreateOrg name newId =>
+    show SInv (match methodAt s.tb (.applyCreateOrg name newId) with
+        | none => (s, Out.res .error)
+        | some m => stepMut s (.applyCreateOrg name newId) m).1 ∧
+      (match methodAt s.tb (.applyCreateOrg name newId) with
+        | none => (s, Out.res .error)
+        | some m => stepMut s (.applyCreateOrg name newId) m).1.mode = s.mode
+    cases hma : methodAt s.tb (.applyCreateOrg name newId) with
+    | none => exact ⟨hI, rfl⟩
+    | some m =>
+      refine stepMut_inv s hI _ m hma (fun r tb' he => ?_)
+      -- which of the three paths `m` is; all three are required sufficient in cluster mode
+      cases hmode : s.mode with
+      | direct => rw [hmode] at he; simp [exec] at he
+      | cluster =>
+        rw [hmode] at hok
+        simp only [opOk, Bool.and_eq_true] at hok
+        simp only [methodAt] at hma
+        split at hma
+        · injection hma with hma; subst hma; exact hok.1.2
+        · split at hma
+          · injection hma with hma; subst hma; exact hok.2
+          · injection hma with hma; subst hma; exact hok.1.1
+  | createOrg a b => exact mutCase _ rfl rfl rfl
+  | updateOrg a b c => exact mutCase _ rfl rfl rfl
+  | deleteOrg a => exact mutCase _ rfl rfl rfl
+  | createTeam a b c => exact mutCase _ rfl rfl rfl
+  | updateTeam a b c => exact mutCase _ rfl rfl rfl
+  | deleteTeam a => exact mutCase _ rfl rfl rfl
+  | createRole a b c d => exact mutCase _ rfl rfl rfl
+  | updateRole a b c => exact mutCase _ rfl rfl rfl
+  | deleteRole a => exact mutCase _ rfl rfl rfl
+  | createMP a b c d => exact mutCase _ rfl rfl rfl
+  | deleteMP a => exact mutCase _ rfl rfl rfl
+  | addMem a b c => exact mutCase _ rfl rfl rfl
+  | removeMem a b => exact mutCase _ rfl rfl rfl
+  | createToken a b c => exact mutCase _ rfl rfl rfl
+  | updateToken a b => exact mutCase _ rfl rfl rfl
+  | revokeToken a => exact mutCase _ rfl rfl rfl
+  | deleteToken a => exact mutCase _ rfl rfl rfl
+  | rotateToken a => exact mutCase _ rfl rfl rfl
 
-theorem run_inv (ops : List Op) : ∀ (s : State), SInv s → (∀ op ∈ ops, opOk s.mode op = true) →
-    SInv (run s ops) := by
+theorem run_inv (ops : List Op) : ∀ (s : State), SInv s → okRun s.mode ops = true → SInv (run s ops) := by
   induction ops with
   | nil => intro s hI _; exact hI
   | cons op ops ih =>
     intro s hI hok
-    obtain ⟨h1, h2⟩ := step_inv s hI op (hok op (by simp))
-    exact ih _ h1 (fun o ho => by rw [h2]; exact hok o (by simp [ho]))
+    simp only [okRun, Bool.and_eq_true] at hok
+    obtain ⟨h1, h2⟩ := step_inv s hI op hok.1
+    exact ih _ h1 (by rw [h2]; exact hok.2)
 
 end Arc.C20
